@@ -63,6 +63,11 @@ SELFTEST = {"pkg": P, "harness": ["harness/prunner"], "entry": "VerifSelfTest", 
 
 COMPOSITE = step("VerifComposite", {}, {}, reach=["verdict.success", "verdict.failure", "fail-fast", "allowed-failure", "cancel-acknowledged", "cancel-while-task-in-flight", "end"], flags={"preempt": 0})
 
+APP = "github.com/Flowpack/prunner/app"
+# reload plumbing of app.go (handleDefinitionChanges as a thread): what every reload loads is symbolic
+RELOAD = {"pkg": APP, "harness": ["harness/app"], "entry": "VerifC16Reload", "quick": {"rounds": 2}, "thorough": {"rounds": 3},
+          "flags": {"preempt": 0}, "reach": ["load-failed", "signal", "two-reloads-installed", "reload-without-change", "end"]}
+
 C05STEP = step("VerifC05Step", {"N": 4}, {"N": 5}, reach=["sched.start", "sched.append", "sched.replace", "sched.reject-full", "sched.reject-noqueue", "three-waiting", "two-running", "end"])
 
 CHECKS = {
@@ -92,17 +97,18 @@ CHECKS = {
                      step("VerifC02Graph", {"tasks": 2}, {"tasks": 3}, reach=["cyclic", "acyclic"]),
                      step("VerifC02Graph", {"tasks": 5, "dagonly": 1, "concretenames": 1}, {"tasks": 5, "dagonly": 1, "concretenames": 1}, reach=["acyclic"]), SELFTEST, C05STEP]},
     "C16": {"prefixes": ["C16."], "assumptions": L3_ASSUME, "validate_samples": {"quick": 1, "thorough": 3},
-            "runs": [bmc({"K": 4, "N": 3, "reloads": 1, "reservedvar": 0, "taskerr": 0}, {"K": 5, "N": 3, "reloads": 1, "taskerr": 0}, reach=["reload"])]},
+            "runs": [bmc({"K": 4, "N": 3, "reloads": 1, "reservedvar": 0, "taskerr": 0}, {"K": 5, "N": 3, "reloads": 1, "taskerr": 0}, reach=["reload"]), RELOAD]},
     "C17": {"prefixes": ["C17."],
             "assumptions": ["YAML decoding is a stub that fills the target with an arbitrary value of its type (yaml.v2 is not executed)",
                             "globbing returns the two files in either order; os.Open succeeds for them",
-                            "shapes bounded: tasks/env/script/depends_on sizes as listed in bounds; strings are unbounded SMT strings"],
+                            "shapes bounded: tasks/env/script/depends_on sizes as listed in bounds; strings are unbounded SMT strings",
+                            "reload plumbing (VerifC16Reload): app.handleDefinitionChanges runs as a thread from its real SSA; the loader, CLI flags, ticker, signal subscription and PipelineRunner.ReplaceDefinitions are stubs; every load returns an error or a definition set whose task script is a fresh symbolic string (optionally with a second pipeline); `rounds` reload triggers (tick or SIGUSR1, watch flag symbolic): after each processed reload the runner holds the set loaded last successfully"],
             "runs": [defrun("VerifC17Validate", {"slice": 2, "map": 2}, {"slice": 2, "map": 2}, reach=["accepted", "rejected", "default-applied"]),
                      defrun("VerifC17Strategy", reach=["append", "replace", "unknown"]),
                      defrun("VerifC17EqualsTask", {"slice": 2, "map": 2}, {"slice": 2, "map": 2}, reach=["same", "different"]),
                      defrun("VerifC17EqualsPipeline", {"slice": 1, "map": 1}, {"slice": 1, "map": 2}, reach=["same", "different"]),
                      defrun("VerifC17EqualsSet", reach=["same-2"]),
-                     defrun("VerifC17Load", reach=["duplicate", "loaded", "invalid-file"], replay=None)]},
+                     defrun("VerifC17Load", reach=["duplicate", "loaded", "invalid-file"], replay=None), RELOAD]},
     "C10": {"prefixes": ["C10."],
             "assumptions": ["store.DataStore is a recording stub (the JSON codec is not executed, except the float writer kernel)",
                             "error texts are non-empty strings; instants in (0, 2^61)",
